@@ -1007,6 +1007,23 @@ func spellNum(r drv.Rand, n int64) json.RawMessage {
 	return json.RawMessage(s)
 }
 
+// joinedAud: ONE audience string that merely contains the issuer next to a separator - what a
+// decoder that splits a string audience would turn into a list with the issuer in it.
+func joinedAud(r drv.Rand, issuer string) string {
+	sep := drv.Pick(r, []string{",", ", ", " ", ";", "; ", "\t", " , ", "|", "\n", ",,"})
+	other := drv.Pick(r, []string{"https://other.example.com", "https://other.example", "c-alpha", "x"})
+	switch r.IntN(4) {
+	case 0:
+		return other + sep + issuer
+	case 1:
+		return issuer + sep + other
+	case 2:
+		return other + sep + issuer + sep + other
+	default:
+		return issuer + sep
+	}
+}
+
 // omitEmpty: an empty claim is left out of the JSON (otherwise it is sent empty half of the time)
 func claimsJSON(c claimsD, audString bool, r drv.Rand, omitEmpty bool) []byte {
 	m := map[string]any{}
@@ -1148,7 +1165,7 @@ func assertionCase(r drv.Rand, w *emit.Writer, wd world, bump func(string)) {
 	for k := 0; k < nm; k++ {
 		m := drv.Pick(r, []string{"iss", "sub", "aud", "iat", "iat", "exp", "exp", "kid", "alg", "signer", "signer", "tamper", "tamper", "unregister", "malformed", "absent"})
 		if near {
-			m = drv.Pick(r, []string{"near_aud", "near_aud", "near_aud", "near_sub", "near_sub", "near_iss", "near_kid"})
+			m = drv.Pick(r, []string{"near_aud", "near_aud", "near_aud", "joined_aud", "joined_aud", "near_sub", "near_sub", "near_iss", "near_kid"})
 		}
 		if crossTenant {
 			m = "cross_tenant"
@@ -1181,6 +1198,8 @@ func assertionCase(r drv.Rand, w *emit.Writer, wd world, bump func(string)) {
 			default:
 				c.iss, c.sub = "", ""
 			}
+		case "joined_aud": // a single STRING audience (not an array) with the issuer and a separator inside
+			c.aud, audString = []string{joinedAud(r, issuer)}, true
 		case "cross_tenant":
 			c.aud = []string{otherTenant}
 		case "near_aud":
@@ -2021,13 +2040,15 @@ func requestCase(r drv.Rand, w *emit.Writer, wd world) {
 	for k := 0; k < nm; k++ {
 		m := drv.Pick(r, []string{"iss", "inner_client", "both_absent", "outer_client", "impersonate", "aud", "response_type", "kid", "alg", "signer", "signer", "tamper", "tamper", "unregister", "malformed"})
 		if near {
-			m = drv.Pick(r, []string{"near_aud", "near_aud", "near_aud", "near_iss", "near_inner_client", "near_outer_client", "near_response_type", "near_response_type", "near_kid", "near_impersonate", "near_impersonate"})
+			m = drv.Pick(r, []string{"near_aud", "near_aud", "near_aud", "joined_aud", "joined_aud", "near_iss", "near_inner_client", "near_outer_client", "near_response_type", "near_response_type", "near_kid", "near_impersonate", "near_impersonate"})
 		}
 		muts = append(muts, m)
 		switch m {
 		case "near_aud":
 			nmv := nearMiss(r, issuer)
 			aud = drv.Pick(r, [][]string{{nmv}, {nmv}, {"https://other.example.com", nmv}, {nmv, named}, {}, {nearMiss(r, issuer), nmv}})
+		case "joined_aud":
+			aud, audString = []string{joinedAud(r, issuer)}, true
 		case "near_iss":
 			iss = nearMiss(r, named)
 		case "near_inner_client":
